@@ -246,6 +246,47 @@ let pr_verified_auth (v : verified_auth) =
   pr_bytes v.va_cred_id ^ " " ^ pr_int v.va_new_count ^ " " ^ pr_bool v.va_multi_device ^ " "
   ^ pr_bool v.va_backed_up ^ " " ^ pr_bool v.va_uv
 
+let rd_reg_policy () : reg_policy =
+  let ch = rd_bytes () in let rp = rd_str () in let org = rd_origin () in
+  let up = rd_bool () in let uv = rd_bool () in let algs = rd_list rd_int in
+  let roots = rd_list (fun () -> let f = rd_str () in let l = rd_list rd_bytes in (f, l)) in
+  let ba = rd_list rd_bytes in let bk = rd_list rd_bytes in let bs = rd_list rd_bytes in
+  let now = rd_int () in
+  { rp_challenge = ch; rp_rp_id = rp; rp_origin = org; rp_require_up = up; rp_require_uv = uv; rp_algs = algs;
+    rp_roots = roots; rp_builtin_apple = ba; rp_builtin_android_key = bk; rp_builtin_safetynet = bs; rp_now = now }
+let rd_reg_cred () : reg_cred cred_in =
+  match next () with
+  | "T" -> InText (rd_str ()) | "D" -> InDict (rd_json ())
+  | "R" ->
+    let id = rd_str () in let raw = rd_bytes () in let ty = rd_str () in
+    let cdj = rd_bytes () in let ao = rd_bytes () in
+    let tr = rd_opt (fun () -> rd_list rd_str) in let att = rd_opt rd_str in
+    InRec { rcr_id = id; rcr_raw_id = raw; rcr_type = ty; rcr_client_data = cdj; rcr_att_obj = ao;
+            rcr_transports = tr; rcr_attachment = att }
+  | t -> failwith ("cred " ^ t)
+let pr_verified_reg (v : verified_reg) =
+  pr_bytes v.vr_cred_id ^ " " ^ pr_bytes v.vr_pubkey ^ " " ^ pr_int v.vr_count ^ " " ^ pr_str v.vr_aaguid ^ " "
+  ^ pr_bytes v.vr_fmt ^ " " ^ pr_str v.vr_type ^ " " ^ pr_bool v.vr_uv ^ " " ^ pr_bytes v.vr_att_obj ^ " "
+  ^ pr_bool v.vr_multi_device ^ " " ^ pr_bool v.vr_backed_up
+let rec cps_of_coqstring (s : Model.string) : z list =
+  match s with EmptyString -> [] | String (c, r) ->
+    (match c with Ascii (b0,b1,b2,b3,b4,b5,b6,b7) ->
+      let v = (if b0 then 1 else 0) + (if b1 then 2 else 0) + (if b2 then 4 else 0) + (if b3 then 8 else 0)
+            + (if b4 then 16 else 0) + (if b5 then 32 else 0) + (if b6 then 64 else 0) + (if b7 then 128 else 0) in
+      z_of_int v :: cps_of_coqstring r)
+let pr_cstr s = pr_str (cps_of_coqstring s)
+let pr_cert_info (c : cert_info) =
+  pr_bytes c.ci_magic ^ " " ^ pr_cstr c.ci_type ^ " " ^ pr_bytes c.ci_qualified_signer ^ " " ^ pr_bytes c.ci_extra_data ^ " "
+  ^ pr_bytes c.ci_clock.ck_clock ^ " " ^ pr_int c.ci_clock.ck_reset ^ " " ^ pr_int c.ci_clock.ck_restart ^ " "
+  ^ pr_bool c.ci_clock.ck_safe ^ " " ^ pr_bytes c.ci_firmware ^ " " ^ pr_cstr c.ci_name_alg ^ " "
+  ^ pr_bytes c.ci_name_alg_bytes ^ " " ^ pr_bytes c.ci_name ^ " " ^ pr_bytes c.ci_qualified_name
+let pr_pub_area (p : pub_area) =
+  let attrs = String.concat "" (List.map (fun k -> if attr_bit p.pa_attrs k then "1" else "0") attr_positions) in
+  let ps = (match p.pa_params with
+    | RSAParams (sym, sch, kb, ex) -> "RSA " ^ pr_cstr sym ^ " " ^ pr_cstr sch ^ " " ^ pr_bytes kb ^ " " ^ pr_bytes ex
+    | ECCParams (sym, sch, crv, kdf) -> "ECC " ^ pr_cstr sym ^ " " ^ pr_cstr sch ^ " " ^ pr_cstr crv ^ " " ^ pr_cstr kdf) in
+  pr_cstr p.pa_type ^ " " ^ pr_cstr p.pa_name_alg ^ " " ^ attrs ^ " " ^ pr_bytes p.pa_auth_policy ^ " " ^ ps ^ " " ^ pr_bytes p.pa_unique
+
 (* ---------- dispatch ---------- *)
 let dispatch (cmd) =
   match cmd with
@@ -267,6 +308,11 @@ let dispatch (cmd) =
   | "tocrypto" -> pr_res pr_key (bind (decode_credential_public_key (rd_bytes ())) (to_crypto the_oracles))
   | "verifyauth" -> let p = rd_auth_policy () in let c = rd_auth_cred () in
       pr_res pr_verified_auth (verify_auth the_oracles p c)
+  | "verifyreg" -> let p = rd_reg_policy () in let c = rd_reg_cred () in
+      pr_res pr_verified_reg (verify_reg the_oracles p c)
+  | "certinfo" -> pr_res pr_cert_info (parse_cert_info (rd_bytes ()))
+  | "pubarea" -> pr_res pr_pub_area (parse_pub_area (rd_bytes ()))
+  | "tsok" -> let now = rd_int () in let ts = rd_int () in pr_bool (timestamp_ok now ts)
   | "counterok" -> let s = rd_int () in let c = rd_int () in pr_bool (counter_ok s c)
   | _ -> "DRIVER-ERROR unknown command " ^ cmd
 
